@@ -7,6 +7,7 @@ mod glue;
 mod looprt;
 mod more;
 mod opts;
+mod shapes;
 mod ws;
 
 fn main() {
@@ -33,6 +34,7 @@ fn c13(c: &vsexp::Sexp) -> vsexp::Sexp {
         22 => ws::run(c),
         29 | 30 => opts::run(c),
         31 | 32 => ax::run(c),
+        36 => shapes::run(c),
         27 | 28 | 33..=35 => more::run(c),
         // a history: several calls on this thread, one after the other
         19 => vsexp::Lst(c.list()[1..].iter().map(c13).collect()),
